@@ -226,6 +226,32 @@ package coordinator
 
 // Per-owner goroutine body (C03.2). The store, the shard writer and hinted handoff are abstracted:
 // every call returns an arbitrary result. Ghosts record what the body did.
+// ---- C03: a cluster write honours the requested consistency level ----
+// req(c, n): acknowledgements required for consistency level c over n owners.
+//@ pure req(c, n) = ite(c == models.ConsistencyLevelAny || c == models.ConsistencyLevelOne, 1, ite(c == models.ConsistencyLevelQuorum, n/2 + 1, n))
+
+// Collection side. Ghosts: got = results received from owner goroutines, okc = those without error.
+// The per-owner goroutines are abstracted: each receive yields an arbitrary result (all outcome vectors,
+// all arrival orders); closing and timeout arms may fire at any iteration.
+//@ func (*PointsWriter).writeToShardWithContext
+//@   props C03
+//@   requires shard != nil
+//@   requires w.Logger != nil
+//@   requires w.stats != nil
+//@   at after select#1: assume selectidx == 2 ==> selectrecv2 != nil
+//@   ghost got int = 0
+//@   ghost okc int = 0
+//@   at after select#1: ghost got = got + ite(selectidx == 2, 1, 0)
+//@   at after select#1: ghost okc = okc + ite(selectidx == 2 && selectrecv2.Err == nil, 1, 0)
+//@   loop 2 invariant level: required == req(consistency, len(shard.Owners))
+//@   loop 2 invariant counts: wrote == okc && 0 <= wrote && (wrote < required || len(shard.Owners) == 0) && got == rangeindex + 1 && got >= okc
+//@   loop 2 invariant err_seen: (writeError == nil) || got > okc
+//@   ensures success_needs_level: result == nil ==> okc >= req(consistency, len(shard.Owners))
+//@   ensures level_implies_success: len(shard.Owners) > 0 && got == len(shard.Owners) && okc >= req(consistency, len(shard.Owners)) ==> result == nil
+//@   ensures no_owners_no_success: len(shard.Owners) == 0 ==> result != nil
+//@   ensures partial: got == len(shard.Owners) && okc > 0 && okc < req(consistency, len(shard.Owners)) ==> result == ErrPartialWrite
+//@   ensures failed: got == len(shard.Owners) && okc == 0 ==> result != nil && result != ErrPartialWrite
+
 // Environment of the points writer (fields of unnamed interface type): any result, no write to the
 // points writer's own state or to the request (assumption).
 //@ func (iface).NodeID
